@@ -24,6 +24,14 @@ def impl_replay(case):
     p_before = np.array(M.get_parameter_values(), dtype=float).copy()
     out = {"sim": G.sim_tokens(M, bool(case.get("safe")), dt, case.get("t0", 0.0), x0), "kind": case["kind"]}
     vtoks = None; seed = int(case["seed"])
+    if case.get("warmup") and not case["spec"].get("rules"):
+        # an earlier simulation through the SAME model and interface must leave nothing behind (seeded change S3_C05: the model's
+        # stoichiometry updated in place by a run); the replayed run below is compared with a model built from the definition
+        py_seed_random(seed + 1)
+        try:
+            SSASimulator().py_simulate(I, T)
+            if case["kind"] == "dssa": DelaySSASimulator().py_delay_simulate(I, ArrayDelayQueue.setup_queue(I.py_get_num_reactions(), len(T), dt), T)
+        except Exception: pass
     py_seed_random(seed)
     pre = 0
     if case["kind"] == "ssa":
